@@ -847,6 +847,12 @@ theorem step_inv (cfg : Cfg) (s : State) (t : Nat) (hI : Inv cfg s)
   | get1 =>
     intro _
     simp only
+    cases hsp : cfg.spurGet1 t with
+    | true =>
+      simp only [if_true]
+      exact inv_goto hI (by rw [hpc]; rfl) trivial
+    | false =>
+    simp only [Bool.false_eq_true, if_false]
     cases hv : s.var with
     | some id =>
       simp only
@@ -1192,7 +1198,7 @@ theorem step_decreases (cfg : Cfg) (s : State) (t : Nat) (h : enabled s t = true
   cases hp : s.pc t with
   | start => simp only []; split <;> simp [remaining]
   | askClient => simp [remaining]
-  | get1 => simp only []; split <;> simp [remaining]
+  | get1 => simp only []; split <;> (try split) <;> simp [remaining]
   | setOwn1 _ => simp [remaining]
   | acquire =>
     rw [hp] at h
@@ -1238,7 +1244,7 @@ theorem step_nofin (cfg : Cfg) (hk : ∀ t, cfg.kind t ≠ .fin) (s : State) (t 
   cases hpc : s.pc t with
   | start => simp only []; split <;> exact nofin_goto h (by simp) (by simp)
   | askClient => exact nofin_goto h (by simp) (by simp)
-  | get1 => simp only []; split <;> exact nofin_goto h (by simp) (by simp)
+  | get1 => simp only []; split <;> (try split) <;> exact nofin_goto h (by simp) (by simp)
   | setOwn1 id => exact nofin_goto (s := s.setWid _ id) h (by simp) (by simp)
   | acquire =>
     simp only []
@@ -1289,7 +1295,8 @@ namespace DistN
 
 /-- the `Dist` configuration seen when every worker computes the same names -/
 def toDist (cfg : Cfg) : Dist.Cfg :=
-  { kind := cfg.kind, worker := cfg.worker, faultCreate := cfg.faultCreate, faultCall := cfg.faultCall }
+  { kind := cfg.kind, worker := cfg.worker, faultCreate := cfg.faultCreate, faultCall := cfg.faultCall,
+    spurGet1 := cfg.spurGet1 }
 
 set_option linter.unusedSimpArgs false in
 theorem proj_step (cfg : Cfg) (L V : Nat) (hL : ∀ w, cfg.lockName w = L) (hV : ∀ w, cfg.varName w = V)
